@@ -18,6 +18,7 @@ import ast
 
 from ..core import AnalysisError, finish, unparse
 from ..dataflow import Flow, chain, call_name
+from ..pathstate import Paths, Client
 from ..poly import Poly
 from ..terms import Terms, reify, plain, match, V, ANY, show, subterms, \
     mk_cmp, is_none, stores, method_calls, alternatives, one_level, SITES, \
@@ -789,6 +790,180 @@ def _child_values_comp(view, ge):
     return False, "no dictionary is made for the child"
 
 
+class _ChildScan(Client):
+    """Path-sensitive reading of a children scan of the field tree: for the
+    child of the current outer iteration, does some requirement block it
+    (``conf``), has every requirement been looked at (``complete`` and no
+    ``hole``), was the child yielded.  A requirement (ident, value) blocks
+    when blocks(known_in, known_eq) is true, where known_in / known_eq are
+    what the path has established about ``ident in field_values`` and
+    ``value == field_values[ident]``."""
+
+    def __init__(self, T, outer, inner, IN, EQ, blocks):
+        self.T, self.outer, self.inner = T, outer, inner
+        self.IN, self.EQ, self.blocks = IN, EQ, blocks
+        self.cache = {}
+        self.problems = {}
+        self.n_yield = 0
+
+    def start(self):
+        # conf, complete, hole, yielded, in_, eq_, cur
+        return (False, False, False, False, None, None, False)
+
+    def _info(self, view, n):
+        k = n.id
+        if k in self.cache:
+            return self.cache[k]
+        info = None
+        a = n.ast
+        if n.kind == "join" and n.label == "forbody":
+            info = ("outer",) if a is self.outer else \
+                ("inner",) if a is self.inner else None
+        elif n.kind == "iter":
+            info = ("ohead",) if a is self.outer else \
+                ("ihead",) if a is self.inner else None
+        elif n.kind == "join" and n.label == "forelse" and a is self.inner:
+            info = ("idone",)
+        elif n.kind == "join" and n.label == "endfor" and a is self.inner:
+            info = ("iexit",)
+        elif n.kind == "assume":
+            try:
+                t, p = view.cond(a, n, n.polarity)
+            except AnalysisError:
+                t = None
+            if t is not None and t == self.IN:
+                info = ("in", p)
+            elif t is not None and t == self.EQ:
+                info = ("eq", p)
+        elif n.kind == "stmt" and a is not None and any(
+                isinstance(x, ast.Yield) for x in ast.walk(a)):
+            info = ("yield",)
+        self.cache[k] = info
+        return info
+
+    def step(self, view, n, env, mon):
+        info = self._info(view, n)
+        if info is None:
+            return mon
+        conf, complete, hole, yielded, in_, eq_, cur = mon
+        k = info[0]
+
+        def close():
+            nonlocal hole, conf
+            if cur:
+                b = self.blocks(in_, eq_)
+                if b is None:
+                    hole = True
+        if k == "outer":
+            return (False, False, False, False, None, None, False)
+        if k == "ohead":
+            if cur or complete or conf or hole or yielded:
+                # coming back from the body
+                if not yielded and not conf and complete and not hole:
+                    self.problems.setdefault("skipped", n)
+            return mon
+        if k == "inner":
+            close()
+            return (conf, complete, hole, yielded, None, None, True)
+        if k == "ihead":
+            close()
+            return (conf, complete, hole, yielded, None, None, False)
+        if k == "idone":
+            return (conf, True, hole, yielded, None, None, False)
+        if k == "iexit":
+            close()
+            return (conf, complete, hole, yielded, None, None, False)
+        if k in ("in", "eq"):
+            if k == "in":
+                in_ = info[1]
+            else:
+                eq_ = info[1]
+            if cur and self.blocks(in_, eq_) is True:
+                conf = True
+            return (conf, complete, hole, yielded, in_, eq_, cur)
+        if k == "yield":
+            self.n_yield += 1
+            if conf:
+                self.problems.setdefault("blocked", n)
+            elif not complete or hole:
+                self.problems.setdefault("unexamined", n)
+            return (conf, complete, hole, True, in_, eq_, cur)
+        return mon
+
+
+def r4_children(program, rep):
+    """Which children of a node of the field tree are visited, decided on
+    all paths of the scan (PATHS): _potential_children yields a child iff no
+    requirement names a field that is set to another value;
+    _enabled_children yields it iff every requirement names a field set to
+    that very value."""
+    def potential(i, e):
+        # blocks iff ident in values and value != values[ident]
+        if i is False or e is True:
+            return False
+        if i is True and e is False:
+            return True
+        return None
+
+    def enabled(i, e):
+        # blocks iff not (ident in values and value == values[ident])
+        if i is False or e is False:
+            return True
+        if i is True and e is True:
+            return False
+        return None
+    for name, blocks, what in (
+            ("_potential_children", potential, "no requirement contradicts "
+             "a field that is set"),
+            ("_enabled_children", enabled, "every requirement is met by a "
+             "field that is set")):
+        fn = program.get(BF + "._Tree." + name)
+        inst = qual(fn)
+        T = Terms(fn)
+        cfg = T.cfg
+        FV = ("param", formals(fn)[1])
+        outer = [lp for lp in fn.body if isinstance(lp, ast.For)]
+        if len(outer) != 1:
+            raise AnalysisError("%s: one loop over the children" % name)
+        outer = outer[0]
+        inner = [lp for lp in ast.walk(outer) if isinstance(lp, ast.For)
+                 and lp is not outer]
+        if len(inner) != 1:
+            raise AnalysisError("%s: one loop over a child's requirements"
+                                % name)
+        inner = inner[0]
+        it_o = T.term(outer.iter, cfg.loop_head[id(outer)])
+        it_i = T.term(inner.iter, cfg.loop_head[id(inner)])
+        EO = T._tag(outer.iter, ("elem", it_o))
+        if it_o != ("items", ("attr", SELF, "children")) or \
+                it_i != ("comp", EO, 0):
+            raise AnalysisError("%s: the loops are not over the children "
+                                "and a child's requirements" % name)
+        EI = T._tag(inner.iter, ("elem", it_i))
+        IDENT, VALUE = ("comp", EI, 0), ("comp", EI, 1)
+        IN = mk_cmp("In", IDENT, FV)
+        EQ = mk_cmp("Eq", VALUE, ("item", FV, IDENT))
+        mon = _ChildScan(T, outer, inner, IN, EQ, blocks)
+        paths = Paths(T, mon)
+        paths.run(T, cfg.entry, {}, mon.start())
+        if mon.n_yield == 0:
+            raise AnalysisError("%s: no yield reached" % name)
+        pr = mon.problems
+        rep.check(not pr, "C08-R4", inst, "%s yields a child exactly when "
+                  "%s (every requirement looked at on every path, %d "
+                  "states)" % (name, what, paths.count),
+                  construct="children scan", node=fn,
+                  fail="%s: %s" % (name, "; ".join(sorted(
+                      {"blocked": "a child is yielded although one of its "
+                       "requirements rules it out",
+                       "unexamined": "a child is yielded before all of its "
+                       "requirements have been looked at (a later one may "
+                       "rule it out): fields of contradicting scopes are "
+                       "treated as able to coexist",
+                       "skipped": "a child none of whose requirements rules "
+                       "it out is not yielded"}[k] for k in pr))))
+
+
 def r5_widths(program, rep):
     fn = program.get(BF + ".__call__")
     inst = qual(fn)
@@ -897,6 +1072,7 @@ def check(program, rep):
     rep.guard("C08-R2", r2_explicit, program, rep)
     rep.guard(["C08-R3", "C08-R4"], r3_masks, program, rep)
     rep.guard("C08-R4", r4_order, program, rep)
+    rep.guard("C08-R4", r4_children, program, rep)
     rep.guard("C08-R5", r5_widths, program, rep)
     rep.guard("C08-R6", r6_tags, program, rep)
     rep.floor("C08-R4", 5)
